@@ -120,7 +120,7 @@ Proof. vm_compute. reflexivity. Qed.
 
 (* every block construct through the combined model *)
 Example block_sample :
-  match parse_real (mkPyparse (fun _ => true) (fun _ => Some (0, []))) (fun _ => true) block_sample_lines with
+  match parse_real (mkPyparse (fun _ => true) (fun _ => Some (0, [])) (fun _ => 0)) (fun _ => true) block_sample_lines with
   | POk st => map fst (passages st) = ["Start"; "End"] /\ initial st = "Start"
   | _ => False
   end.
